@@ -274,6 +274,49 @@ fn binop_driver(t: &Tier, m: &mut Matrix, sink: &mut Sink, ops: &[&'static str],
             }
         }
     }
+    // subject of several words, operand ONE word of the same word type (single-pass fast paths): values whose
+    // partial product carries into a word that is all zeros / all ones in the subject
+    {
+        let fam: [(Vec<Kind>, Kind, usize); 6] = [
+            (vec![Kind::F8x2, Kind::F8x3, Kind::F8x4], Kind::F8x1, 8), (vec![Kind::F16x4], Kind::F16x1, 16), (vec![Kind::F32x4], Kind::F32x1, 32),
+            (vec![Kind::F64x2, Kind::F64x4], Kind::F64x1, 64), (vec![Kind::F128x4], Kind::F128x1, 128), (vec![Kind::Fux4], Kind::Fux1, 64),
+        ];
+        let mut k = 0usize;
+        for (xks, yk, w) in fam.iter() {
+            let w = *w;
+            for xk in xks {
+                let cap = xk.fixed_cap().unwrap();
+                for n in [w + 1, 2 * w, (2 * w + 3).min(cap), cap] {
+                    if n > cap {
+                        continue;
+                    }
+                    for xv in 0..4 {
+                        for yv in 0..3 {
+                            k += 1;
+                            if t.quick && w == 128 && k % 2 == 0 {
+                                continue;
+                            }
+                            let mut x = zeros(n);
+                            match xv {
+                                0 => x[w - 1] = 1,                                   // 2^(w-1): the product carries into a zero word
+                                1 => { for i in 0..w { x[i] = 1; } }                 // low word saturated, zero above
+                                2 => { for i in 0..n { x[i] = (i < w || i >= (2 * w).min(n)) as u8; } } // zero word in the middle
+                                _ => x = random_bits_uniform(&mut rng, n),
+                            }
+                            let y: Bits = match yv {
+                                0 => int_bits(2, w.min(8).max(2)),
+                                1 => ones(w),
+                                _ => { let mut y = random_bits_uniform(&mut rng, w); y[w - 1] = 1; y }
+                            };
+                            let op = ops[k % ops.len()];
+                            let forms: &[&str] = if op == "div_rem" { &[""] } else { &FORMS6 };
+                            sink.emit(m.run(&Case::new(op, x).y(YSpec::Bits(y)).forms(forms).xk(vec![*xk]).yk(vec![*yk])));
+                        }
+                    }
+                }
+            }
+        }
+    }
     // products of (near-)powers of two at every pair of word boundaries: partial products that are exactly
     // 2^w, 2^(2w) (the cross terms of the widening multiply of each word type, their carries into the next word)
     if ops.contains(&"mul") {
